@@ -705,9 +705,98 @@ impl Space {
     }
 }
 
+// ---------------------------------------------------------------------------
+// deep parentheses: redundant parentheses cost exactly one level of the nesting budget each
+
+/// flat expressions (no nesting of their own); `#k` marks operand k
+const DEEP_BASES: [&str; 8] = [
+    "#0 - #1 - #2", "#0 + #1 * #2", "#0 < #1 && #2 > #0", "#0 > #1 || #1 > #2 && #2 > #0", "#0 == #1", "#0 * #1 % #2", "#0 != #1 - #2", "#0 - #1 / #2 + #0",
+];
+/// the parser accepts this many levels; the whole expression is the first
+const DEEP_LEVELS: usize = 31;
+
+fn deep_cases() -> Vec<(usize, usize, Option<usize>, usize)> {
+    // (base, pairs around the whole, operand, pairs around the operand)
+    let mut v = Vec::new();
+    for b in 0..DEEP_BASES.len() {
+        for j in 0..DEEP_LEVELS {
+            if j > 0 {
+                v.push((b, j, None, 0));
+            }
+            for op in 0..3 {
+                if !DEEP_BASES[b].contains(&format!("#{}", op)) {
+                    continue;
+                }
+                for k in 1..DEEP_LEVELS - j {
+                    v.push((b, j, Some(op), k));
+                }
+            }
+        }
+    }
+    v
+}
+
+fn run_deep(idx: u64, acc: &mut Acc) {
+    let cases = deep_cases();
+    let (b, j, op, k) = cases[idx as usize];
+    let names = ["x", "y", "z"];
+    let render = |wrap_op: Option<(usize, usize)>, whole: usize| -> String {
+        let mut s = DEEP_BASES[b].to_string();
+        for (i, n) in names.iter().enumerate() {
+            let operand = match wrap_op {
+                Some((o, k)) if o == i => format!("{}{}{}", "(".repeat(k), n, ")".repeat(k)),
+                _ => n.to_string(),
+            };
+            s = s.replace(&format!("#{}", i), &operand);
+        }
+        format!("{}{}{}", "(".repeat(whole), s, ")".repeat(whole))
+    };
+    let plain = render(None, 0);
+    let src = render(op.map(|o| (o, k)), j);
+    let case = || json!({"src": src, "without_the_parentheses": plain, "pairs_around_the_whole": j, "pairs_around_operand": k});
+    let site = format!("[{}] {} pairs of redundant parentheses", DEEP_BASES[b], if j + k < 16 { "<16" } else { "16..30" });
+    let p0 = match real::compile(&plain) {
+        Ok(p) => p,
+        Err(o) => {
+            acc.violation("deep-parentheses base-does-not-compile", json!({"src": plain}), "compiles".into(), o.show());
+            return;
+        }
+    };
+    acc.eval();
+    acc.nontrivial(&idx);
+    let p = match real::compile(&src) {
+        Ok(p) => p,
+        Err(o) => {
+            acc.class(&o.class());
+            acc.violation(&format!("{} rejected", site), case(), format!("accepted: {} levels of nesting at most", 1 + j + k), o.show());
+            return;
+        }
+    };
+    acc.class("compiled");
+    let (t0, t1) = (p0.ast().map(|a| astcanon::expr(a).show()), p.ast().map(|a| astcanon::expr(a).show()));
+    if t0 != t1 {
+        acc.violation(&format!("{} change-the-tree", site), case(), format!("{:?}", t0), format!("{:?}", t1));
+    }
+    for env in [[3i64, 2, 1], [1, 5, 2], [0, 0, 7]] {
+        let binds: Vec<(&str, V)> = names.iter().zip(env.iter()).map(|(n, v)| (*n, V::Int(*v))).collect();
+        let b = real::bindings(&binds);
+        let (r0, r1) = (real::exec_prog(p0.clone(), &b), real::exec_prog(p.clone(), &b));
+        acc.evals(2);
+        if !r0.agrees(&r1) {
+            acc.violation(&format!("{} change-the-value", site), case(), r0.show(), r1.show());
+        }
+    }
+    if acc.wants_sample() {
+        acc.sample(json!({"src": src, "tree": t1}));
+    }
+}
+
 pub fn replay_families(t: Tier) -> Vec<Family<'static>> {
     let sp: &'static Space = Box::leak(Box::new(Space::new(t)));
-    vec![Family::new("sequences", sp.size(), move |i, a| sp.run(i, a))]
+    vec![
+        Family::new("sequences", sp.size(), move |i, a| sp.run(i, a)),
+        Family::new("deep-parentheses", deep_cases().len() as u64, run_deep),
+    ]
 }
 
 pub fn run(t: Tier) -> i32 {
@@ -715,10 +804,11 @@ pub fn run(t: Tier) -> i32 {
     let mut rep = Report::new(ID, t, "exploration");
     let sp = Space::new(t);
     rep.rule = format!(
-        "sequences: every flat sequence operand (op operand)^k for k <= {} over the 14 binary operators and `?`/`:` (16 symbols), plain, with every non-empty decoration (5 prefix runs: none ! !! - -- x 6 postfix chains: none .f [i] (y) .f(y)[i] (y,z)) on one operand at a time, and for k <= {} on all operands at once; each sequence is parsed by an independent table-driven reference parser (levels: ?: right-nesting in the else branch, ||, &&, relations incl. in, + -, * / %, prefix runs, postfix chains; equal levels group left) and rendered 9 ways (as is / every operator node parenthesised / doubly parenthesised x no blanks / single blanks / newline-tab runs); the canonical form of Program::ast() must equal the reference tree in every rendering and the value under an int and a bool environment - also with every subset of the operands written as literals (small ints incl. a hexadecimal literal ending in e, in three layouts; and boundary values: minimum/maximum int, a uint, 2^32) - must equal the reference evaluation of the reference tree; sequences the grammar gives no structure (unbalanced or nested ?: without parentheses) must be rejected. Non-trivial = every sequence; distinct by index",
+        "sequences: every flat sequence operand (op operand)^k for k <= {} over the 14 binary operators and `?`/`:` (16 symbols), plain, with every non-empty decoration (5 prefix runs: none ! !! - -- x 6 postfix chains: none .f [i] (y) .f(y)[i] (y,z)) on one operand at a time, and for k <= {} on all operands at once; each sequence is parsed by an independent table-driven reference parser (levels: ?: right-nesting in the else branch, ||, &&, relations incl. in, + -, * / %, prefix runs, postfix chains; equal levels group left) and rendered 9 ways (as is / every operator node parenthesised / doubly parenthesised x no blanks / single blanks / newline-tab runs); the canonical form of Program::ast() must equal the reference tree in every rendering and the value under an int and a bool environment - also with every subset of the operands written as literals (small ints incl. a hexadecimal literal ending in e, in three layouts; and boundary values: minimum/maximum int, a uint, 2^32) - must equal the reference evaluation of the reference tree; deep-parentheses: 8 flat expressions with j pairs of parentheses around the whole and k pairs around one operand for every j + k <= 30 (the parser accepts 31 levels, the expression itself is one): accepted, same canonical tree and same value under 3 environments as without them; sequences the grammar gives no structure (unbalanced or nested ?: without parentheses) must be rejected. Non-trivial = every sequence; distinct by index",
         sp.maxk, sp.full_deco_k
     );
     rep.run_family(Family::new("sequences", sp.size(), |i, a| sp.run(i, a)));
+    rep.run_family(Family::new("deep-parentheses", deep_cases().len() as u64, run_deep));
     rep.assumptions = vec![
         "the reference parser (c02.rs) is the reading of the CEL grammar named in the statement".into(),
         "call arguments are compared in source order (their stored order in the tree is an internal choice)".into(),
